@@ -51,8 +51,8 @@ RetryKeys == {"open.retry"} \cup {"open.retry#" \o ToString(i) : i \in 1..60}   
 Kind(t) ==
   CASE t.ev = "scenario" -> "scenario"
     [] t.ev = "ret:CreateTable" /\ t.res = "ok" -> "create"
-    [] t.ev \in {"ret:SetUpTableGame", "cb:readyfirst"} -> "setup"      \* (the driver answers the first-hand callback with a set-up)
-    [] t.ev = "ret:UpdateBlind" -> "blind"
+    [] (t.ev = "ret:SetUpTableGame" /\ t.res = "ok") \/ t.ev = "cb:readyfirst" -> "setup"      \* (the driver answers the first-hand callback with a set-up)
+    [] t.ev = "ret:UpdateBlind" /\ t.res = "ok" -> "blind"
     [] t.ev = "ret:PauseTable" /\ t.res = "ok" -> "pause"
     [] t.ev = "ret:CloseTable" /\ t.res = "ok" -> "close"
     [] t.ev = "ret:ReleaseTable" /\ t.res = "ok" -> "release"
